@@ -124,6 +124,7 @@ func buildEnabledTree() {
 	for _, m := range modules {
 		m.enabledAsDependency.UnSet()
 	}
+	verifPoint("mgmt.treereset", nil)
 
 	// mark dependencies
 	for _, m := range modules {
